@@ -160,6 +160,16 @@ CLAIMED = {
         'technique': 'contract-based deductive verification (Verus) of extracted real code over a ghost heap model of the RefCell node graph',
         'design_ref': 'DESIGN.md 8.23',
     },
+    'C01': {
+        'text': 'PARTIAL.  Deductive proof (Verus) on the verbatim bodies of next_solution, next_solution_and, next_solution_or (ghost node heap, rule R15) of the structural facts the search order rests on: clauses are fetched in index order, each at most once; '
+                'a clause body runs under the unifier of its head with the goal; the rest of a conjunction runs under the first goal\'s answer; the later alternatives of a disjunction are the remaining operands and run under the bindings the disjunction was entered with '
+                '(substitution sets are immutable values, so bindings of an abandoned alternative cannot reach a later answer). '
+                'The statement itself - the answer sequence equals that of depth-first, left-to-right, clause-order resolution, in order and multiplicity, up to renaming - is a whole-history equivalence and is checked BOUNDED only: '
+                '3000 random stratified programs per seed against a reference interpreter (c01_prog), and solve_all() formatting on 1500 more (c01_solve_all).',
+        'note': 'Only the per-node clauses are proved; the equivalence is bounded. Trusted: heap model (T8), R15 (T4). unify / get_rule abstract in the unit (C06, C10 are their own properties). format_solution not under contract.',
+        'technique': 'contract-based deductive verification (Verus) of extracted real code (per-node clauses) + bounded differential comparison with a reference interpreter on random programs',
+        'design_ref': 'DESIGN.md 8.27',
+    },
     'C04': {
         'text': 'PARTIAL.  Deductive proof (Verus) on the verbatim bodies of format_for_print_pred and next_solution_print (unit print) and of next_solution_bip (unit solver): '
                 'the text of print is its first argument with the `%s` markers replaced left to right by the later arguments (left-over arguments follow one another - concatenation when there is no marker -, left-over markers vanish), '
@@ -212,7 +222,6 @@ CLAIMED = {
 }
 
 NOT_APPLICABLE = {
-    'C01': 'whole-search equivalence with SLD resolution over an Rc<RefCell<SolutionNode>> graph mutated through borrow_mut and raw pointers: no contract of either installed verifier can be stated on next_solution; leaf components are proved under other properties but do not decide C01',
     'C02': "the cut's effect lives in next_solution's clause loop and a RefCell::as_ptr raw-pointer walk; Verus rejects both constructs, Kani cannot build a SolutionNode within budget",
     'C03': 'Not branch of next_solution (RefCell node graph), same obstacle as C01/C02',
 
